@@ -621,6 +621,20 @@ func (u *Unit) specCall(st *State, e *SExpr, env *SpecEnv, q *bool) *Val {
 		}
 		f := u.d.fun("pure!"+fname+"!"+idx, sorts, sortOf(rt))
 		return u.fromScalar(st, app(f, terms...), rt)
+	case "fieldSame": // fieldSame(p, "f"): the heap cell p.f holds what it held at function entry (for slice-typed fields:
+		// the very same slice value, which is what the frame check asks for)
+		x := ev(0)
+		if env.old == nil || args[1].Op != "str" {
+			u.eng.specError("%s: fieldSame(p, \"field\") needs a pre-state and a field name", env.what)
+			return boolVal("true")
+		}
+		ft := fieldType(x.T, args[1].Name)
+		if ft == nil {
+			u.eng.specError("%s: type %s has no field %s (contract stale?)", env.what, typeKey(x.T), args[1].Name)
+			return boolVal("true")
+		}
+		hn := heapName(x.T, args[1].Name)
+		return boolVal(tEq(app("select", u.heapGet(st, hn, sortOf(ft)), x.S), app("select", u.heapGet(env.old, hn, sortOf(ft)), x.S)))
 	case "reflLen": // reflLen(x): length of the slice held in the interface value x (what reflect.ValueOf(x).Len() returns)
 		u.reflDecls()
 		return intVal(app(u.d.fun("refl.len", []string{SInt}, SInt), ev(0).S))
